@@ -286,18 +286,30 @@ def work(item):
                 part.states.add(report.fp(["long", n]))
                 part.nontrivial.add(report.fp(["long", n]))
         elif kind == "latin1":
-            for line in ["é", "a é b", "ÿ", "\xa0x"]:
-                srv = a.Server(encoding="latin-1")
-                raw = encode(w, srv, "250", ["h", line, "t"], True)
-                for cuts in ([], list(range(1, len(raw)))):
-                    res = decode(w, a, raw, cuts, 1, encoding="latin-1")
-                    part.evaluations += 1
-                    want = [("250", rstripped(expected_info("250", ["h", line, "t"], True)))]
-                    if res != want:
-                        part.violation({"kind": "latin-1"}, {"raw": repr(raw), "got": res, "want": want},
-                                       replay={"latin1": line})
-                part.states.add("latin1" + line)
-                part.nontrivial.add("latin1" + line)
+            enc = payload or "latin-1"
+            lines = ["é", "a é b", "ÿ", "\xa0x"] if enc == "latin-1" else ["Привет", "я"]
+            # every high byte of the encoding alone, doubled and tripled inside a line (0xFF is a letter here, not IAC)
+            for b in range(0x80, 0x100):
+                try:
+                    ch = bytes([b]).decode(enc)
+                except UnicodeDecodeError:
+                    continue
+                lines += ["a" + ch + "b", "a" + ch * 2 + "b", ch * 3 + "."]
+            for line in lines:
+                srv = a.Server(encoding=enc)
+                for code, ls, mode in (("250", ["h", line, "t"], True), ("257", [line], False)):
+                    raw = encode(w, srv, code, ls, mode)
+                    for cuts in ([], list(range(1, len(raw)))):
+                        res = decode(w, a, raw, cuts, 1, encoding=enc)
+                        part.evaluations += 1
+                        want = [(code, rstripped(expected_info(code, ls, mode)))]
+                        if res != want:
+                            part.violation({"kind": "single-byte-encoding", "encoding": enc},
+                                           {"raw": repr(raw), "got": res, "want": want},
+                                           replay={"latin1": [enc, line]})
+                            break
+                part.states.add(enc + line)
+                part.nontrivial.add(enc + line)
         elif kind == "matches":
             codes = payload
             alpha = "0159xX?"
@@ -338,7 +350,8 @@ def build_items(tier):
         for mode in (False, True):
             items.append(("pairs", (code, mode)))
     items.append(("foreign", [("250", "251"), ("211", "226"), ("150", "550")]))
-    items.append(("latin1", None))
+    items.append(("latin1", "latin-1"))
+    items.append(("latin1", "cp1251"))
     for enc, bad in (("latin-1", "Ω"), ("ascii", "é"), ("cp1251", "é")):
         cases = []
         for n in (1, 2, 3):
@@ -385,6 +398,22 @@ def replay(path):
     if "unencodable" in rp:
         enc, code, lines, mode = rp["unencodable"]
         part = work(("unencodable", (enc, [(code, lines, mode)])))
+    elif "latin1" in rp:
+        enc, line = rp["latin1"] if isinstance(rp["latin1"], list) else ("latin-1", rp["latin1"])
+        import aioftp as a
+        w = World()
+        try:
+            bad = []
+            for code, ls, mode in (("250", ["h", line, "t"], True), ("257", [line], False)):
+                raw = encode(w, a.Server(encoding=enc), code, ls, mode)
+                res = decode(w, a, raw, [], 1, encoding=enc)
+                want = [(code, rstripped(expected_info(code, ls, mode)))]
+                if res != want:
+                    bad.append({"raw": repr(raw), "got": res, "want": want})
+            print(json.dumps(bad, indent=1, default=repr))
+            return 1 if bad else 0
+        finally:
+            w.close()
     elif "single" in rp:
         code, line = rp["single"]
         global LINES
